@@ -410,6 +410,14 @@ func runLim(c LimCase, cs *kit.CaseStats) error {
 			cs.Inconclusive("drain-timeout")
 			return nil
 		}
+		// a handler that has answered still holds its two slots until its deferred
+		// calls have run; the next burst must not race them (it would be dropped
+		// legitimately by a subnet that is momentarily full), so wait until no
+		// handler goroutine is left
+		if rest := p2px.WaitNoStacks(closeWatchdog, "syncer.(*Syncer).runPeer.func"); len(rest) > 0 {
+			cs.Inconclusive("handlers-not-finished-after-drain")
+			return nil
+		}
 		for i := range c.Peers {
 			if n[i] >= 2*c.PerPeer {
 				cs.NonTrivial()
